@@ -167,9 +167,14 @@ def _check(ctx: Ctx) -> None:
     rest_sites = sites.get("REST", [])
     bar_sites = sites.get("BAR", [])
     ts_sites = sites.get("TIME_SIGNATURE", [])
-    ctx.floor("REST emission sites", len(rest_sites), 1, now=True)
-    ctx.floor("BAR emission sites", len(bar_sites), 1, now=True)
-    ctx.floor("TIME_SIGNATURE emission sites", len(ts_sites), 1, now=True)
+    missing_kind = False
+    for kind_, sites_ in (("REST", rest_sites), ("BAR", bar_sites), ("TIME_SIGNATURE", ts_sites)):
+        if not ctx.require("CLK2", f"tokenise emits {kind_} tokens", len(sites_), 1, function=fe.qualname,
+                           construct=f"tokenise never emits a {kind_} token", message=f"no `tokens.append(...)` of a {kind_} token: detokenise's clock is never told about "
+                           f"{'elapsed time' if kind_ == 'REST' else 'bar lines' if kind_ == 'BAR' else 'signature changes'}", file=fe.file, node=fe.node):
+            missing_kind = True
+    if missing_kind:
+        return
     c0, js0 = rest_sites[0]
     flds0 = fields_of(js0)
     if len(flds0) != 1 or not isinstance(flds0[0], ast.Name):
@@ -528,10 +533,13 @@ def _check(ctx: Ctx) -> None:
 
     # ---- REST amount and CLOSE
     calls = [c for c in ast.walk(fe.node) if isinstance(c, ast.Call) and isinstance(c.func, ast.Name) and c.func.id == "_apply_rest"]
-    ctx.floor("_apply_rest call sites", len(calls), 2)
+    ctx.floor("_apply_rest call sites", len(calls), 1)
     nzr = Normaliser()
     nzr.run_block(pre)
     main = [c for c in calls if loop in list(ancestors(c))]
+    ctx.require("REST", "tokenise: the time between the clock and the next event is emitted as rests", len(main), 1, function=fe.qualname,
+                construct="the event loop of tokenise never emits the rest that precedes an event",
+                message="no `_apply_rest(...)` call in the event loop: every event is placed at the clock, all gaps are lost", file=fe.file, node=loop)
     for c in main:
         got = nzr.norm(c.args[0])
         rest_ = got - nzr.norm(ast.parse(f"{pairing}[0].time", mode="eval").body) + Sym.atom(eroles["cur_time"])
